@@ -1209,6 +1209,8 @@ type E1Final struct {
 	DropClaims  int          // trace ids of this history the dropped filter claims
 	DropCounter int64        // trace_send_dropped
 	StressDrops int64        // dropped_from_stress
+	Made        int64        // sampler decisions made (makeDecision): trace_send_has_root + trace_send_no_root
+	Applied     int64        // decisions applied (send): trace_send_kept + trace_send_dropped
 	FilterLag   int          // ids still unanswered by the decision cache when the wall-clock bound expired
 }
 
@@ -1287,6 +1289,7 @@ func (e *E1) Finalize() *E1Final {
 		}
 	}
 	f.DropCounter = e.Counter("trace_send_dropped")
+	f.Made, f.Applied = e.DecisionCounts()
 	f.StressDrops = e.Counter("dropped_from_stress")
 	return f
 }
@@ -1344,6 +1347,19 @@ func (f *E1Final) E1SurelyRetained(t *E1TraceObs, minKeptPerWorker int) bool {
 	}
 	return others < minKeptPerWorker
 }
+
+// DecisionCounts returns how many sampler decisions the workers made (makeDecision counts
+// trace_send_has_root / trace_send_no_root) and how many were applied (send counts trace_send_kept /
+// trace_send_dropped). On a correct collector every decision made is applied in the same loop iteration, so
+// the two are equal at every quiescent point; a surplus of made decisions means decisions were RECORDED in the
+// decision cache for traces that were not sent or dropped.
+func (e *E1) DecisionCounts() (made, applied int64) {
+	return e.Counter("trace_send_has_root") + e.Counter("trace_send_no_root"), e.Counter("trace_send_kept") + e.Counter("trace_send_dropped")
+}
+
+// PhantomDecisions is Made - Applied (0 on a correct collector). While it is non-zero a "dropped" answer of the
+// filter that no drop decision accounts for is NOT evidence of a false positive.
+func (f *E1Final) PhantomDecisions() int64 { return f.Made - f.Applied }
 
 // DropFilterExcess: the dropped-trace filter answered "dropped" for DropClaims ids of this history while
 // Refinery made DropCounter+StressDrops drop decisions. A positive excess is the measured number of
